@@ -151,7 +151,7 @@ include hE in
 theorem remFlagsLoop_eff (cur : List (MessageId × RemoteId × List FlagVal)) (fl : List String) :
     ∀ (s s' : State), remFlagsLoop E cur fl s = .ok ((), s') →
       SameRest s s' ∧ SameButFlags s.db s'.db ∧
-      ∀ p, p ∈ s'.db.msgFlags ↔ p ∈ s.db.msgFlags ∧ ¬(p.2 ∈ fl ∧ p.1 ∈ withKey cur (lower p.2) true) := by
+      ∀ p, p ∈ s'.db.msgFlags ↔ p ∈ s.db.msgFlags ∧ ¬(∃ f ∈ fl, lower p.2 = lower f ∧ p.1 ∈ withKey cur (lower f) true) := by
   induction fl with
   | nil =>
     intro s s' h
@@ -171,23 +171,21 @@ theorem remFlagsLoop_eff (cur : List (MessageId × RemoteId × List FlagVal)) (f
     refine ⟨SameRest.trans (show SameRest s { s with db := db1 } from ⟨rfl, rfl, rfl, e1.2.2.2⟩) i1, SameButFlags.trans e1 i2, ?_⟩
     intro p
     rw [i3 p, e2 p]
-    simp only [List.mem_cons]
+    simp only [List.mem_cons, exists_eq_or_imp]
     constructor
     · rintro ⟨⟨h3, h4⟩, h5⟩
       refine ⟨h3, ?_⟩
-      rintro ⟨h6 | h6, h7⟩
-      · exact h4 ⟨by rw [← h6]; exact h7, h6⟩
-      · exact h5 ⟨h6, h7⟩
+      rintro (⟨h6, h7⟩ | h6)
+      · exact h4 ⟨h7, h6⟩
+      · exact h5 h6
     · rintro ⟨h3, h4⟩
-      refine ⟨⟨h3, ?_⟩, ?_⟩
-      · rintro ⟨h5, h6⟩; exact h4 ⟨Or.inl h6, by rw [h6]; exact h5⟩
-      · rintro ⟨h5, h6⟩; exact h4 ⟨Or.inr h5, h6⟩
+      exact ⟨⟨h3, fun ⟨h5, h6⟩ => h4 (Or.inl ⟨h6, h5⟩)⟩, fun h5 => h4 (Or.inr h5)⟩
 
 include hE in
 theorem clearLoop_eff (ids : List MessageId) (fl : List String) :
     ∀ (s s' : State), clearLoop E ids fl s = .ok ((), s') →
       SameRest s s' ∧ SameButFlags s.db s'.db ∧
-      ∀ p, p ∈ s'.db.msgFlags ↔ p ∈ s.db.msgFlags ∧ ¬(p.1 ∈ ids ∧ p.2 ∈ fl) := by
+      ∀ p, p ∈ s'.db.msgFlags ↔ p ∈ s.db.msgFlags ∧ ¬(p.1 ∈ ids ∧ lower p.2 ∈ fl.map lower) := by
   induction fl with
   | nil =>
     intro s s' h
@@ -207,7 +205,7 @@ theorem clearLoop_eff (ids : List MessageId) (fl : List String) :
     refine ⟨SameRest.trans (show SameRest s { s with db := db1 } from ⟨rfl, rfl, rfl, e1.2.2.2⟩) i1, SameButFlags.trans e1 i2, ?_⟩
     intro p
     rw [i3 p, e2 p]
-    simp only [List.mem_cons]
+    simp only [List.map_cons, List.mem_cons]
     constructor
     · rintro ⟨⟨h3, h4⟩, h5⟩
       refine ⟨h3, ?_⟩
